@@ -168,5 +168,13 @@ func factsStores() {
 		return true
 	})
 	emitList("storesLimitedSendErrors", "pkg/store/limiter.go limitedServer.Send: what is returned when a limiter refuses", sendErrs)
+	limStatus := "unknown"
+	ast.Inspect(body(fn(lim, "limitError", "GRPCStatus")), func(n ast.Node) bool {
+		if ret, ok := n.(*ast.ReturnStmt); ok && len(ret.Results) == 1 {
+			limStatus = text(ret.Results[0])
+		}
+		return true
+	})
+	emitStr("storesLimitErrorStatus", "pkg/store/limiter.go limitError.GRPCStatus: the status of a violated limit", limStatus)
 	emitStr("storesLimiterCond", "pkg/store/limiter.go Limiter.ReserveWithType: the reservation and its test", limCond)
 }
